@@ -34,7 +34,7 @@ def strategy_(draw, tier):
     earlier = draw(st.lists(st.one_of(one_eps, st.sampled_from([1e-2, 0.3, 1.0])), min_size=0, max_size=2))
     N = M.n_modes(mdl["sites"])
     ix = st.integers(0, N - 1)
-    comps = draw(st.lists(st.tuples(ix, ix, ix, ix), min_size=1, max_size=2, unique=True))
+    comps = draw(st.lists(gen.chi_quad_st(N), min_size=1, max_size=3, unique=True))
     triples = draw(st.lists(gen.triple_st(-3, 3), min_size=1, max_size=2, unique_by=tuple))
     susc = draw(st.lists(gen.susc_quad_st(N), min_size=1, max_size=3, unique=True))
     return {"model": mdl, "eps": eps, "earlier": earlier, "comps": [list(c) for c in comps], "triples": triples, "susc": [list(c) for c in susc]}
